@@ -16,9 +16,14 @@ def run(nbeh, rounds, seed):
         t0 = time.time()
         rc, out, err, _ = vlib.run_driver(binp, ["-in", "in.json", "-rounds", str(rounds)], cwd=d, timeout=1500,
                                           env={"GORACE": "halt_on_error=0 exitcode=0 history_size=3"})
-        if "racedrv done" not in out:
-            raise vlib.Inconclusive("racedrv did not finish (rc=%s): %s" % (rc, err[-2500:]))
         races = parse_races(err)
+        m = re.search(r"fatal error: (concurrent map[^\n]*)\n(?:.*\n)*?(reservoir/[^\s(]+(?:\([^)]*\))?[^\s(]*)\(.*\n\s+/repo/(\S+?):(\d+)", err)
+        if m:
+            # the runtime itself detected unsynchronised map access inside the proxy and killed the process
+            races.append({"pair": "fatal: %s in %s" % (m.group(1), m.group(2)), "where": ["%s:%s" % (m.group(3), m.group(4))], "count": 1,
+                          "excerpt": err[m.start():m.start() + 1200]})
+        elif "racedrv done" not in out:
+            raise vlib.Inconclusive("racedrv did not finish (rc=%s): %s" % (rc, err[-2500:]))
         ops = sum(len(h) for h in hists)
         return {"behaviours": len(hists), "ops": ops, "races": races, "wall": time.time() - t0, "sample": hists[0][:12]}
     finally:
